@@ -336,6 +336,8 @@ func ruleA6(c *Ctx) {
 						c.S.Trivial("A6-expiry", key, pos, "allowed raw consumer: "+why)
 					} else if _, ok := hasExpiryTest(fn, isExp); ok {
 						c.S.OK("A6-expiry", key, pos, "iteration tests isExpired on each element")
+					} else if visitorTestsExpiry(x, isExp) {
+						c.S.OK("A6-expiry", key, pos, "the visitor handed to the iteration tests isExpired on each element")
 					} else {
 						c.S.Bad("A6-expiry", key, pos, fmt.Sprintf("%s reads the keyspace through %s without testing expiry", fnName(fn), cal.Name()))
 					}
@@ -437,4 +439,20 @@ func ruleA6(c *Ctx) {
 			c.S.Trivial("A6-expiry", fnName(L)+":keyspace.get", c.Pos(L.Pos()), "raw lookup without callers")
 		}
 	}
+}
+
+
+// visitorTestsExpiry: the call hands a closure (a visitor for `forEach`) to the reader, and that closure tests expiry on
+// what it is given.
+func visitorTestsExpiry(call *ssa.Call, isExp map[*ssa.Function]bool) bool {
+	for _, a := range call.Call.Args {
+		if mc, ok := stripValue(a).(*ssa.MakeClosure); ok {
+			if g, ok := mc.Fn.(*ssa.Function); ok {
+				if _, has := hasExpiryTest(g, isExp); has {
+					return true
+				}
+			}
+		}
+	}
+	return false
 }
